@@ -28,8 +28,9 @@ m = {
         "add_only": True,
     },
     "engines": [
-        {"name": "vsched", "path": "engine/vsched", "kind_free_text": "hand-written stateless model checker for Go: cooperative controlled scheduler over a source-instrumented copy of gocql (engine/instrument), virtual time, enumerated environment choices, preemption/clock/fault-bounded DFS with happens-before or observational state caching, replay files", "serves_properties": sorted(p for p, e in entries.items() if 'vsched' in e.get('engine', ''))},
+        {"name": "vsched", "path": "engine/vsched", "kind_free_text": "hand-written stateless model checker for Go: cooperative controlled scheduler over a source-instrumented copy of gocql (engine/instrument), virtual time, enumerated environment choices, preemption/clock/fault-bounded DFS with happens-before or observational state caching, replay files", "serves_properties": sorted(p for p, e in entries.items() if 'vsched' in e.get('engine', '') or os.path.isdir(f"{V}/harness/{p.lower()}/mc"))},
         {"name": "enum", "path": "engine/enum", "kind_free_text": "bounded-exhaustive enumeration (DFS over choice sequences) against reference models written from the specifications (engine/refcql, engine/refcass, engine/refcass2)", "serves_properties": sorted(p for p, e in entries.items() if 'vsched' not in e.get('engine', ''))},
+        {"name": "race-pass", "path": "harness/c17/race", "kind_free_text": "free-running go test -race of stress bodies against the repository's in-process test server (sampled; reports races only; embedded in C17's evidence)", "serves_properties": ["C17"]},
     ],
     "checks": [entries[p['id']] for p in props if p['id'] in entries],
     "not_applicable": [{"property_id": p['id'], "reason": na_reasons.get(p['id'], "check not built yet (work in progress; see DESIGN.md section 4)")} for p in props if p['id'] not in entries],
